@@ -4,12 +4,16 @@
    Model/LinAlg.v (det_matrix / det_tensor, minors, inverse_matrix / inverse_tensor).
    Specification: the parity of the inversion count, the Laplace expansion `detc` over column
    lists (Proofs/C07P1.v) and mathcomp's \det, *m, 1%:M (Proofs/C07P2.v).
+   Heap's algorithm is proved correct for EVERY n (C07_heap_enumerates_all_n: induction over the
+   recursion with closed forms for the array after `heaps k`, Proofs/C07HeapA.v + C07HeapN.v), so
+   C07_det_correct_all_n / C07_inverse_all_n carry no size bound; the older theorems bounded by
+   n <= 7 (kernel evaluation of the transcription) are kept as an independent cross-check.
    `ops_of dv` is the dictionary of a mathcomp commutative ring R with division `dv`;
    `mx_of dv n m` is the n x n matrix the routines read off a list of rows `m` (entry i j of m). *)
 From Coq Require Import PeanoNat List Permutation Ring_theory.
 From mathcomp Require Import all_ssreflect all_algebra.
 From EasyML Require Import Base.Sx Model.Num Model.Perms Model.LinAlg
-     Proofs.C07P1 Proofs.C07Heap7 Proofs.C07P2.
+     Proofs.C07P1 Proofs.C07Heap7 Proofs.C07P2 Proofs.C07HeapN Proofs.C07P3.
 Import GRing.Theory.
 Local Open Scope ring_scope.
 
@@ -98,6 +102,44 @@ Proof.
   move=> names x. rewrite /inverse_tensor2 /=. case: (inverse_tensor ops m) => // y [<-]. by [].
 Qed.
 
+(* ---- session 3: no size bound ------------------------------------------------------------- *)
+
+(* Heap's algorithm as transcribed, with the even_swaps toggle, for EVERY n >= 1: no permutation
+   is generated twice, exactly the permutations of 0..n-1 are generated, and the flag passed with
+   each is the parity of its inversion count.  (Proof: the array after `heaps k` is the input read
+   through a fixed source map - first and last of the first k entries exchanged for odd k,
+   [k-3, k-2, 1, 2, .., k-4, k-1, 0] for even k - hence the k sub-calls of level k see k different
+   entries in position k-1; every swap exchanges two different positions, which flips the parity
+   of the inversion count; k! different permutations are all of them.) *)
+Theorem C07_heap_enumerates_all_n : forall n : nat, (1 <= n)%coq_nat ->
+  List.NoDup (List.map fst (heap_perms n)) /\
+  (forall p, List.In p (List.map fst (heap_perms n)) <-> Permutation p (List.seq 0 n)) /\
+  (forall p ev, List.In (p, ev) (heap_perms n) -> ev = Nat.even (inversions p)).
+Proof. exact heap_enumerates_all. Qed.
+
+(* square input of ANY size n >= 1 over any commutative ring: both routes return \det of the input *)
+Theorem C07_det_correct_all_n : forall (R : comRingType) (dv : R -> R -> R) (n : nat) (m : list (list R)),
+  mrows m = n -> mcols m = n -> (1 <= n)%N ->
+  det_tensor (ops_of dv) m = Some (\det (mx_of dv n m)) /\
+  det_matrix (ops_of dv) m = Some (\det (mx_of dv n m)).
+Proof. move=> R dv n m Hr Hc Hn. split; [exact: det_tensor_correct_all|exact: det_matrix_correct_all]. Qed.
+
+(* any field, n x n content of ANY size n >= 1: the inverse is present exactly when the determinant
+   is non-zero, and then both products with the input are the identity (both routes: the Matrix
+   route equals the tensor route by C07_entry_points_agree) *)
+Theorem C07_inverse_all_n : forall (F : fieldType) (n : nat) (m : list (list F)),
+  wf n m -> (1 <= n)%N ->
+  let dv := fun x y : F => x / y in
+  ((exists X, inverse_tensor (ops_of dv) m = Some X) <-> \det (mx_of dv n m) != 0) /\
+  (forall X, inverse_tensor (ops_of dv) m = Some X ->
+     wf n X /\ mx_of dv n m *m mx_of dv n X = 1%:M /\ mx_of dv n X *m mx_of dv n m = 1%:M) /\
+  inverse_matrix (ops_of dv) m = inverse_tensor (ops_of dv) m.
+Proof.
+  move=> F n m Hwf Hn dv. split; first exact: inverse_tensor_iff_all.
+  split; last exact: inverse_matrix_tensor.
+  move=> X. exact: inverse_tensor_products_all.
+Qed.
+
 (* non-vacuity: the ring hypotheses are met by the dictionary of every mathcomp commutative ring
    (e.g. the rationals), and the 2 x 2 input 2*I over the rationals meets the hypotheses
    of C07_inverse with a non-zero determinant *)
@@ -129,3 +171,6 @@ Print Assumptions C07_det_absent_iff.
 Print Assumptions C07_inverse.
 Print Assumptions C07_inverse_absent_nonsquare.
 Print Assumptions C07_entry_points_agree.
+Print Assumptions C07_heap_enumerates_all_n.
+Print Assumptions C07_det_correct_all_n.
+Print Assumptions C07_inverse_all_n.
